@@ -125,6 +125,43 @@ def ionicStrength (sp : List (SpRec α)) (massWater : α) : α := NumOps.lit (1 
 /-- `calc_alk`: alkalinity of a species from the master species of its (secondary-form) reaction -/
 def speciesAlk (masterAlk : String → α) (e : Eqn α) : α := evalBody masterAlk e.body
 
+/-- a line of SOLUTION_MASTER_SPECIES: element or valence name, master species, alkalinity, primary? -/
+structure MasterLine (α : Type) where
+  elt : String
+  species : String
+  alk : α
+  primary : Bool
+
+/-- last line of the wanted kind whose species is `n` (tidy_species walks `master[]` in order and later lines overwrite
+`s->primary` / `s->secondary`; the `Alkalinity` line sets neither) -/
+def lastLine (wantPrimary : Bool) (n : String) : List (MasterLine α) → Option (MasterLine α)
+  | [] => none
+  | m :: t =>
+    match lastLine wantPrimary n t with
+    | some r => some r
+    | none => if m.primary == wantPrimary && m.species == n && !(m.elt == "Alkalinity") then some m else none
+
+/-- `calc_alk`: the master whose alkalinity a reaction token contributes. `secondaryFirst` is the lookup order read from
+the source by tools/gen_speciation.py (`Gen.SpeciationSrc.ALK_SECONDARY_FIRST`) -/
+def masterAlk (secondaryFirst : Bool) (ms : List (MasterLine α)) (n : String) : Option α :=
+  let sec := (lastLine false n ms).map (·.alk)
+  let pri := (lastLine true n ms).map (·.alk)
+  if secondaryFirst then sec.orElse (fun _ => pri) else pri.orElse (fun _ => sec)
+
+/-- `trxn_combine` drops a combined coefficient when `equal(coef, 0.0, 1e-5)` -/
+def combineTol : Rat := 1 / 100000
+
+/-- `under(lm) * mass_water`: `moles` of an aqueous species as `molalities()` stores it -/
+def underMoles [DecidableLT α] (lm massWater : α) : α :=
+  if lm < NumOps.lit (-40) then NumOps.lit 0 * massWater
+  else if NumOps.lit 3 < lm then NumOps.lit 1000 * massWater
+  else NumOps.exp10 lm * massWater
+
+/-- `sum_species` per valence state: `master->total = Σ moles · master->coef · (coefficient of the valence master species in
+the species' secondary-form reaction)`; `sec s` is that reaction, `atoms` is `coef_in_master` -/
+def valenceTotal (masterSpecies : String) (atoms : α) (sec : String → List (String × α)) (sp : List (SpRec α)) : α :=
+  sumBy (fun s => atoms * coefOf masterSpecies (sec s.name) * s.moles) sp
+
 /-! ### read-outs -/
 
 def pH (la : String → α) : α := NumOps.lit 0 - la "H+"
